@@ -402,8 +402,8 @@ def position_from_search(ctx, rule='C07.position-from-search'):
     for fn in sorted(F.fns, key=lambda f: f.path):
         if fn.kind == 'Closure' or not fn.self_adt or last_seg(fn.self_adt) != 'InnerBucket':
             continue
-        if ctx.A.module_private(fn) and F.callers(fn):
-            continue
+        if ctx.A.module_private(fn) and F.callers(fn) and all(((g.owner or g) if g.kind == 'Closure' else g).self_adt == fn.self_adt for g in F.callers(fn)):
+            continue        # folded into the InnerBucket methods that call it (a private method called from the handle types is looked at here)
         X = ctx.A.xf(fn)
         du = None
         for bb in sorted(X.reachable_blocks()):
@@ -444,7 +444,7 @@ def position_from_search(ctx, rule='C07.position-from-search'):
     for fn in sorted(F.fns, key=lambda f: f.path):
         if fn.kind == 'Closure' or not fn.self_adt or last_seg(fn.self_adt) != 'InnerBucket':
             continue
-        if ctx.A.module_private(fn) and F.callers(fn):
+        if ctx.A.module_private(fn) and F.callers(fn) and all(((g.owner or g) if g.kind == 'Closure' else g).self_adt == fn.self_adt for g in F.callers(fn)):
             continue
         X = ctx.A.xf(fn)
         du = None
